@@ -36,7 +36,7 @@ def_PutProfiles == %(put)s
 ====
 """
 
-CFG = """SPECIFICATION Spec
+CFG = """SPECIFICATION %(spec)s
 CONSTANTS
   Grace = %(grace)d
   DefaultLt = %(deflt)d
@@ -122,7 +122,7 @@ def write_cfg(wd, name, c, maxops, hyp, tail):
             grace=GRACE_Q, deflt=DEFAULT_LT_Q, srcs=tla_set(c["srcs"]), eps=tla_set(c["eps"]), ds=tla_set(c["ds"]),
             regvars=tla_set(sorted(set(c["regvars"]))), updvars=tla_set(sorted(set(c["updvars"]))),
             putvars=tla_set(sorted(set(c["putvars"]))), adv=tla_set(c["adv"]), maxtime=c["maxtime"],
-            maxops=maxops, hyp=hyp, tail=tail, keephist="FALSE" if tail is MC_TAIL else "TRUE",
+            maxops=maxops, hyp=hyp, tail=tail, spec="SimSpec" if tail is SIM_TAIL else "Spec", keephist="FALSE" if tail is MC_TAIL else "TRUE",
         ),
     )
 
